@@ -10,7 +10,8 @@ statement of C05 does not settle; they are repeated in the evidence `assumptions
  * names are drawn so that no component/binding name is a substring of another one (textual
    substitution of reference spellings is C03/C10's subject);
  * every reference appears exactly once in a component's argument string;
- * loop-carried producers sit in a body stage <= the consumer's body stage and are not replicated;
+ * loop-carried producers sit in a body stage <= the consumer's body stage; a replicated producer is only
+   carried into the replicated head of the same chain (same replica count, replica r <- replica r);
  * replication inside the loop is limited to the classic  replicate -> [follower] -> aggregate chain;
  * `:loopref` / `:loopoutput` are only used by consumers outside the loop;
  * one DoWhile document per package.
@@ -56,7 +57,7 @@ def parse_ref(s: str, default_stage: Optional[int] = None) -> Tuple[Optional[int
     return (st, m.group(2), m.group(3), m.group(4))
 
 
-def draw_shape(r, idx: int, K: int) -> Dict[str, Any]:
+def draw_shape(r, idx: int, K: int, allow_repl_carried: bool = True) -> Dict[str, Any]:
     """Draw one DoWhile package shape.  `idx` steers a few boundary choices so that a small number
     of shapes already covers import stages 0..2, body offsets, replication and every reference method."""
     while True:
@@ -114,6 +115,7 @@ def draw_shape(r, idx: int, K: int) -> Dict[str, Any]:
                 c["intra"].append({"to": p["name"], "method": r.choice(PATH_METHODS + ["output"]), "file": f})
 
     # -- bindings: invariant or loop-carried
+    repl_carried = allow_repl_carried and with_repl and idx % 8 == 5
     stages_outer = list(range(0, S + 1))
     bindings: Dict[str, Dict[str, Any]] = {}
     uses: List[Tuple[str, str]] = []
@@ -127,7 +129,13 @@ def draw_shape(r, idx: int, K: int) -> Dict[str, Any]:
         cands = [c for c in body if c.get("follows") is None and not c.get("aggregate")]
         users = r.sample(cands, r.randint(1, min(2, len(cands))))
         loop = None
-        if carried:
+        if repl_carried and bi == 0:
+            # loop-carried input of the replicated head of the chain, produced by a REPLICATED looped
+            # component (the head itself or its follower): replica r of iteration i reads replica r of i-1
+            users = [body[0]]
+            p = r.choice([c for c in body if replicated(c)])
+            loop = {"comp": p["name"], "off": p["off"], "file": r.choice([None, None, "loop.out"]), "replicated": True}
+        elif carried:
             max_off = min(u["off"] for u in users)
             prods = [c for c in body if not replicated(c) and c["off"] <= max_off]
             if prods:
@@ -166,7 +174,7 @@ def draw_shape(r, idx: int, K: int) -> Dict[str, Any]:
     max_stage = max([S + c["off"] for c in body] + [c["stage"] for c in consumers])
     return {"idx": idx, "S": S, "K": K, "body": body, "bindings": bindings, "cond": cond,
             "consumers": consumers, "max_stage": max_stage, "dw_name": r.choice(["loop-it", "dw", "imp-one"]),
-            "repl_via_var": repl_via_var}
+            "repl_via_var": repl_via_var, "repl_carried": repl_carried}
 
 
 # ----------------------------------------------------------------------------- documents
@@ -310,7 +318,8 @@ class Truth:
             if it > 0 and b["loop"]:
                 lp = b["loop"]
                 file = bd["file"] or lp["file"]
-                out.append((self.S + lp["off"], "%d#%s" % (it - 1, lp["comp"]), file, b["type"]))
+                psfx = sfx if self.is_repl(lp["comp"]) else ""      # same replica of the previous iteration
+                out.append((self.S + lp["off"], "%d#%s%s" % (it - 1, lp["comp"], psfx), file, b["type"]))
             else:
                 i = b["init"]
                 file = bd["file"] or i["file"]
